@@ -148,11 +148,21 @@ RDATA_NAME_LAYOUT = {
 }
 
 
+CH = 3
+
+
+def layout_for(rdtype, rdclass):
+    """name layout of (type, class): Chaosnet A (class CH, type 1) is a domain name followed by a
+    16-bit address; every other layout is class-independent"""
+    if rdclass == CH and rdtype == 1:
+        return "N2"
+    return RDATA_NAME_LAYOUT.get(rdtype)
+
+
 def split_rdata(rdtype, rdclass, buf, start, end):
     """Return a list of ('raw', bytes) / ('name', NameInfo) pieces covering buf[start:end].
-    Types without embedded names (or of a class other than IN for class-specific ones)
-    come back as one raw piece."""
-    layout = RDATA_NAME_LAYOUT.get(rdtype)
+    Types without embedded names come back as one raw piece."""
+    layout = layout_for(rdtype, rdclass)
     if layout is None:
         return [("raw", bytes(buf[start:end]))]
     pieces = []
@@ -228,6 +238,7 @@ def walk_message(buf, parse_rdata=True):
         raise WireError("short header")
     m = Msg()
     (m.id, m.flags, qd, an, ns, ar) = struct.unpack("!HHHHHH", buf[:12])
+    zone_class = None  # UPDATE: RDATA under class ANY/NONE is in the format of the zone's class
     m.counts = (qd, an, ns, ar)
     m.questions = []
     m.rrs = []
@@ -242,6 +253,8 @@ def walk_message(buf, parse_rdata=True):
         t, c = struct.unpack("!HH", buf[pos : pos + 4])
         pos += 4
         m.questions.append((info, t, c))
+        if (m.flags >> 11) & 0xF == 5 and zone_class is None:
+            zone_class = c
     for section, cnt in ((1, an), (2, ns), (3, ar)):
         for _ in range(cnt):
             rr = RR()
@@ -265,7 +278,8 @@ def walk_message(buf, parse_rdata=True):
             if parse_rdata and rr.rdlen > 0:
                 # class-specific layouts apply to IN (and ANY for TSIG/TKEY); update
                 # messages use class NONE/ANY with real RDATA of the zone class
-                rr.pieces = split_rdata(rr.rdtype, rr.rdclass, buf, pos, rr.rdata_end)
+                eff = zone_class if (zone_class is not None and rr.rdclass in (254, 255)) else rr.rdclass
+                rr.pieces = split_rdata(rr.rdtype, eff, buf, pos, rr.rdata_end)
                 for kind, v in rr.pieces:
                     if kind == "name":
                         m.names.append(v)
